@@ -245,7 +245,7 @@ func checkC07(c *h.Check) {
 	c.Assumptions = append(c.Assumptions,
 		"termination is decided by completion under a 60 s cap and a 2 GiB address-space cap per scaling program (measured: <0.1 s); growth is not measured",
 		"graphs larger than the stated N only through the deterministic scaling families (chain, diamond ladder, complete DAG, fan-out)")
-	if outcomes["rejected"] == 0 || outcomes["accepted+ran"] == 0 {
+	if c.Only == "" && (outcomes["rejected"] == 0 || outcomes["accepted+ran"] == 0) {
 		c.Internalf("vacuous: outcomes %v", outcomes)
 	}
 }
